@@ -48,6 +48,8 @@ M = {
     "move1": {"op": "move", "set": "1", "dst": "other"},
     "move3": {"op": "move", "set": "3", "dst": "other"},
     "copyback": {"op": "copy", "set": "1:2", "dst": "INBOX"},
+    "copyself": {"op": "copy", "set": "1:3", "dst": "INBOX"},
+    "moveself": {"op": "move", "set": "1:2", "dst": "INBOX"},
     "moveback": {"op": "move", "set": "1", "dst": "INBOX"},
     "noop": {"op": "noop"},
     "capability": {"op": "capability"},
@@ -104,6 +106,8 @@ def scenarios(tier):
         scn("delete|select,noop", SEL_AB, A=["delother"], B=["selother", "noop"]),
         scn("select|select-inactive", [], A=["selother"], B=["selother"]),
         scn("copy|expunge", SEL_AB + DEL1, A=["expunge"], B=["copy12"]),
+        # source and destination are one mailbox: the command queues twice on it, with another session's conflicting command in between
+        scn("copyself|store12", SEL_AB, A=["copyself"], B=["store12"]),
         # deviations that *stay*: an operation passed over remains postponed until nothing else can run, so one session's
         # command can run to completion in the middle of the other's (loop option sticky_ops)
     ]
@@ -132,6 +136,8 @@ def scenarios(tier):
     if tier != "quick":
         S += [
             scn("store,expunge|fetch3,noop", SEL_AB, A=["store3del", "expunge"], B=["fetch3", "noop"]),
+            scn("moveself|store12", SEL_AB, A=["moveself"], B=["store12"]),
+            scn("3:copy|copyback|store12", SEL_A_Bo + [{"s": "C", "op": "select", "m": "INBOX"}], A=["copy12"], B=["copyback"], C=["store12"]),
             scn("3:expunge|fetch3|append", SEL_AB + DEL1 + [{"s": "C", "op": "select", "m": "INBOX"}], A=["expunge"], B=["fetch3"], C=["append"]),
             scn("3:move|moveback|noop", SEL_A_Bo + [{"s": "C", "op": "select", "m": "INBOX"}], A=["move1"], B=["moveback"], C=["noop"]),
         ]
